@@ -739,8 +739,14 @@ def check_types(
         :return: List of validated function arguments.
         """
 
-        # Check for an '*args'-like argument
-        if len(arguments) > len(named_arguments):
+        # Check for an '*args'-like argument (bundled only if at least one
+        # value was passed to it)
+        var_positional = [
+            name
+            for name, param in sig.parameters.items()
+            if param.kind is inspect.Parameter.VAR_POSITIONAL
+        ]
+        if var_positional and var_positional[0] in named_arguments:
             (
                 star_args_name,
                 star_args_values,
@@ -779,8 +785,14 @@ def check_types(
         :return: list of validated function keyword arguments.
         """
 
-        # Check for an '**kwargs'-like argument
-        if kwargs.keys() != named_kwargs.keys():
+        # Check for an '**kwargs'-like argument (bundled only if at least
+        # one keyword was passed to it)
+        var_keyword = [
+            name
+            for name, param in sig.parameters.items()
+            if param.kind is inspect.Parameter.VAR_KEYWORD
+        ]
+        if var_keyword and var_keyword[0] in named_kwargs:
             (
                 star_kwargs_name,
                 star_kwargs_dict,
